@@ -321,6 +321,12 @@ def jobs(tier, seed):
     # every heat-consumer specification mode, exchangers, exchangers entered against the flow
     from checks.c11 import specs as c11_specs
     structs += [(s_, ["sequential", "bidirectional"]) for s_ in c11_specs()]
+    if tier == "thorough":
+        import random
+        rng = random.Random(8000 + seed)
+        structs += [(catalog.random_spec(rng, name="rand%d_s%d" % (i, seed)), ["hydraulics"]) for i in range(30)]
+        structs += [(catalog.random_heat_spec(rng, name="rand_heat%d_s%d" % (i, seed)), ["sequential", "bidirectional"]) for i in range(10)]
+        structs += [(catalog.random_loop_spec(rng, name="rand_loop%d_s%d" % (i, seed)), ["sequential", "bidirectional"]) for i in range(10)]
     for s, modes in structs:
         for m in modes:
             for numba in (False, True):
